@@ -159,6 +159,29 @@ func cmdCheck(argv []string) int {
 	os.MkdirAll(replayDir, 0o755)
 
 	ev := newEvidence(id, *tier, seed)
+	// translator validation: the repository's own test inputs through native code and through gosym
+	if os.Getenv("VERIF_SKIP_SELFTEST") == "" && *only == "" {
+		n, mism, err := runSelftest(0, false)
+		ev.SelftestPairs = n
+		ev.SelftestMismatches = len(mism)
+		if err != nil {
+			fmt.Printf("INCONCLUSIVE property=%s selftest could not run: %v\n", id, err)
+			ev.Incomplete = append(ev.Incomplete, "selftest could not run: "+err.Error())
+			ev.write(time.Since(start).Seconds(), 0)
+			return 3
+		}
+		if len(mism) > 0 {
+			for i, m := range mism {
+				if i < 5 {
+					fmt.Println("SELFTEST-MISMATCH", m)
+				}
+			}
+			fmt.Printf("INCONCLUSIVE property=%s the symbolic executor disagrees with the native build on %d of the repository's own test inputs\n", id, len(mism))
+			ev.Incomplete = append(ev.Incomplete, "selftest mismatches")
+			ev.write(time.Since(start).Seconds(), 0)
+			return 3
+		}
+	}
 	inconclusive := []string{}
 	violations := []string{}
 	knownHits := map[string]bool{}
